@@ -23,8 +23,6 @@ def codeUnp (xB Q2 t y e M2 K2 kap FE2 FM2 : ℝ) : ℝ :=
   8 * kap * (2 - y) * ((4 * xB ^ 2 * M2 / t - 2 * xB - e) * FE2 + 2 * xB ^ 2 * (1 - (1 - 2 * xB) * t / Q2) * FM2) +
   8 * xB ^ 2 * (4 * M2 / t * FE2 + 2 * FM2) * (2 * kap ^ 2 - K2)
 
-def Jr (Q2 xB t y e : ℝ) : ℝ := (1 - y - y * e / 2) * (1 + t / Q2) - (1 - xB) * (2 - y) * t / Q2
-
 set_option maxRecDepth 20000 in
 theorem unp_core_M (xB Q2 t y e P1 : ℝ) (hx : xB ≠ 0) (hQ : Q2 ≠ 0) (ht : t ≠ 0) (hy : y ≠ 0) (he : e ≠ 0) :
     let M2 := e * Q2 / (4 * xB ^ 2)
@@ -139,8 +137,8 @@ theorem TBH2unp_code (c : Consts) (m : CFFs) (pt : Pt) (hK : pt.K_ ^ 2 = pt.K2) 
           (m.F1 ^ 2 - pt.t * m.F2 ^ 2 / (4 * c.Mp2)) ((m.F1 + m.F2) ^ 2) /
         (pt.xB ^ 2 * pt.y ^ 2 * (1 + pt.eps2) ^ 2 * pt.t * pt.P1P2) := by
   have hc : kcos (2 * pt.phi) = 2 * kcos pt.phi ^ 2 - 1 := by unfold kcos; exact Real.cos_two_mul _
-  simp only [BMK.TBH2unp, BMK.PreFacBH, BMK.cBH0unp, BMK.cBH1unp, BMK.cBH2unp, codeUnp, hc, ← hK]
-  ring
+  have hc' : kcos (pt.phi * 2) = 2 * kcos pt.phi ^ 2 - 1 := by rw [mul_comm]; exact hc   -- `cos(phi*2)` in the code
+  bridge_simp [BMK.TBH2unp, BMK.PreFacBH, BMK.cBH0unp, BMK.cBH1unp, BMK.cBH2unp, codeUnp, hc, hc', ← hK, one_mul]
 
 /-- unpolarised Bethe–Heitler: generated code = trace-reduced reference evaluated on the frame's four-vectors -/
 theorem TBH2unp_eq_ref (c : Consts) (m : CFFs) (pt : Pt) {M r sl pT : ℝ}
@@ -178,7 +176,7 @@ theorem TBH2unp_eq_ref (c : Consts) (m : CFFs) (pt : Pt) {M r sl pT : ℝ}
     linear_combination P1_add_P2 f pt.Q2 pt.t hQ.ne' hk hk' hq hΔ hq2
   have hkap : pt.K_ * kcos pt.phi = -(pt.y * (1 + pt.eps2) * f.P1 pt.Q2 + Jr pt.Q2 pt.xB pt.t pt.y pt.eps2) / 2 := by
     rw [hP1c, P1code, ← hK2, ← hK]
-    have : Jr pt.Q2 pt.xB pt.t pt.y pt.eps2 = J c pt.Q2 pt.xB pt.t pt.y pt.eps2 := by simp only [Jr, J]
+    have : Jr pt.Q2 pt.xB pt.t pt.y pt.eps2 = J c pt.Q2 pt.xB pt.t pt.y pt.eps2 := (J_eq c _ _ _ _ _).symm
     rw [this]
     have hye : pt.y * (1 + pt.eps2) ≠ 0 := by positivity
     field_simp
